@@ -545,7 +545,7 @@ class ExprMixin:
                 return
             raise Unsupported("dict literal lookup", node)
         ty = base.ty
-        if st.pure and isinstance(ty, (TSeq, TStr, TBytes, TMap, TRec)):
+        if (st.pure or (st.ghost and st.env.get("__mode__") == "spec")) and isinstance(ty, (TSeq, TStr, TBytes, TMap, TRec)):
             yield st, self.index_unchecked(base, idx, node)
             return
         if isinstance(ty, TSeq):
